@@ -28,7 +28,7 @@ these are reported under the one key `J2Plastic|update_state|vanishing-hardening
 import numpy as onp
 
 ID = "C09"
-TITLE = ("J2 update along every history of 10 target displacement gradients: eqps non-decreasing, plastic distortion "
+TITLE = ("J2 update along every history of 12 target displacement gradients: eqps non-decreasing, plastic distortion "
          "isochoric, yield consistent, committed state minimises the incremental potential, idempotent and "
          "commit-invariant for rate-independent hardening")
 LEVEL = "model_checking"
@@ -96,12 +96,17 @@ CONSTS = {"A": {"E": 100.0, "nu": 0.321, "Y0": 0.3,
                 "linear": {"H": 500.0}, "voce": {"Ysat": 90.0, "eps0": 0.02}, "power law": {"n": 6.0, "eps0": 3e-4},
                 "rate": {"S": 10.0, "m": 4.0, "epsDot0": 1e-3}},
           # perfect plasticity: an admissible constant (the library's own test_RateSensitivity uses hardening modulus 0)
-          "P": {"E": 100.0, "nu": 0.321, "Y0": 0.3, "linear": {"H": 0.0}}}
+          "P": {"E": 100.0, "nu": 0.321, "Y0": 0.3, "linear": {"H": 0.0}},
+          # perfect plasticity in SI units (Pa): stresses of order 1e8..1e11, so anything scaled by a bare tolerance instead
+          # of tolerance*Y0 is far below rounding (a seeded change of that kind went undetected with O(1) constants)
+          "Q": {"E": 200.0e9, "nu": 0.3, "Y0": 250.0e6, "linear": {"H": 0.0}}}
 LAWS = ["linear", "voce", "power law"]
 KINS = ["large", "small"]
 DTS = [("1e-3", 1e-3), ("1", 1.0), ("1e3", 1e3)]
-TARGETS = ["ut:1e-6", "uc:below-yield", "ut:at-yield", "uc:2x-yield", "ut:0.2", "shear+", "shear-", "biax", "rot",
-           "zero"]
+# uc:2.3x-yield / uc:3x-yield continue uc:2x-yield monotonically with SMALL plastic increments on top of an accumulated
+# plastic strain (a seeded change that only misbehaves when eqps_old exceeds half the root bracket went undetected)
+TARGETS = ["ut:1e-6", "uc:below-yield", "ut:at-yield", "uc:2x-yield", "uc:2.3x-yield", "uc:3x-yield", "ut:0.2", "shear+",
+           "shear-", "biax", "rot", "zero"]
 
 
 def _depth(tier, g=None):
@@ -121,6 +126,8 @@ def _models(tier):
                 ms.append({"kin": kin, "law": law, "rate": True, "dt": dl, "set": "A"})
     for kin in KINS:
         ms.append({"kin": kin, "law": "linear", "rate": False, "dt": "1", "set": "P"})
+    for kin in KINS:
+        ms.append({"kin": kin, "law": "linear", "rate": False, "dt": "1", "set": "Q"})
     if tier == "thorough":
         ms.append({"kin": "large", "law": "voce", "rate": False, "dt": "1", "set": "B"})
         ms.append({"kin": "small", "law": "power law", "rate": True, "dt": "1", "set": "B"})
@@ -178,7 +185,7 @@ def _ref(g):
 
 
 def _targets(ref, seed):
-    """10 labelled plane-strain displacement gradients (3x3, third row/column zero)."""
+    """12 labelled plane-strain displacement gradients (3x3, third row/column zero)."""
     rng = onp.random.default_rng([int(seed), 909])
     u = rng.uniform(size=3)
     gamma = 0.03 + 0.05 * u[0]
@@ -193,6 +200,8 @@ def _targets(ref, seed):
     e_below, _ = ref.uniaxial_for_mises(Y0 * (1.0 - 1e-6), -1.0)
     e_at, m_at = ref.uniaxial_for_mises(Y0, +1.0)
     e_2y, _ = ref.uniaxial_for_mises(2.0 * Y0, -1.0)
+    e_23y, _ = ref.uniaxial_for_mises(2.3 * Y0, -1.0)
+    e_3y, _ = ref.uniaxial_for_mises(3.0 * Y0, -1.0)
     sh = onp.zeros((3, 3))
     sh[0, 1] = gamma
     R = onp.eye(3)
@@ -200,7 +209,7 @@ def _targets(ref, seed):
     R[0, 1] = -onp.sin(theta)
     R[1, 0] = onp.sin(theta)
     T = {"ut:1e-6": uni(1e-6), "uc:below-yield": uni(e_below), "ut:at-yield": uni(e_at), "uc:2x-yield": uni(e_2y),
-         "ut:0.2": uni(0.2), "shear+": sh, "shear-": -sh, "biax": onp.diag([biax, biax, 0.0]),
+         "uc:2.3x-yield": uni(e_23y), "uc:3x-yield": uni(e_3y), "ut:0.2": uni(0.2), "shear+": sh, "shear-": -sh, "biax": onp.diag([biax, biax, 0.0]),
          "rot": R - onp.eye(3), "zero": onp.zeros((3, 3))}
     info = {"gamma": gamma, "biax": biax, "theta": theta, "e_below": e_below, "e_at": e_at, "e_2y": e_2y,
             "ref_mises_at_yield_minus_Y0": m_at - Y0}
